@@ -61,7 +61,8 @@ PROPS = {
                  "the real prove_inner performs (trace-only symbolic run) is the protocol schedule, and is event-for-event the one "
                  "Proof::verify rebuilds from the returned proof (contract-level lemma); the two opening lists are the verifier's "
                  "batching order; (b) capacity chain: CommitKey::{max_degree,truncate}, PublicParameters::max_degree, "
-                 "Compiler::max_constraints against their arithmetic specs for all sizes.",
+                 "Compiler::max_constraints against their arithmetic specs for all sizes."
+                 "Also: the unsatisfied-circuit decision of quotient_poly::compute, the inputs the prover hands to it (every public input of the instance interpolated at its row, the masked polynomials, the seven challenges), and PackedCircuitReader::unpack_array_len per tag (compressed route).",
         "technique": "contract-based deductive verification: ring/trace checker in trace-only mode on prove_inner + Verus on the capacity arithmetic",
         "level_note": "NOT decided: algebraic completeness (quotient divisibility, FFT, KZG, pairing). prove_inner statements that touch "
                       "neither transcript nor rng are havocked (listed in the evidence).",
@@ -77,7 +78,8 @@ PROPS = {
                  "guarded by the pairing check on the two computed G1 elements (exit structure compared exactly); every one of the 15 "
                  "evaluations is bound in [E] with the matching batching coefficient and every opened commitment appears in [F] "
                  "(V2/V3; the known V1 gap for q_arith,q_c,q_l,q_r is part of the legacy contract); all five widget terms, the "
-                 "permutation term and the four quotient shares are present with the protocol's scalars.",
+                 "permutation term and the four quotient shares are present with the protocol's scalars."
+                 "Also: Permutation::compute_sigma_permutations closes exactly ONE cycle per witness (instances with fan-out 3, 16, 17, 33) and every appended row enters the permutation map (leaf trace); a callee's errors cannot be swallowed by a fallback in verify_with_version.",
         "technique": "contract-based deductive verification: ring/trace contract checker (exact polynomial normal form, exit structure)",
         "level_note": "NOT decided: soundness against all provers (KZG binding, Schwartz-Zippel). Same units as C03, reported for the "
                       "obligations that are necessary for soundness.",
@@ -125,7 +127,8 @@ PROPS = {
                  "(append_commitment/append_scalar/challenge_scalar/circuit_domain_sep/base/base_v3) and verifier-key seeding: "
                  "for ALL symbolic inputs the real code's transcript schedule, its two pairing inputs and its exits are "
                  "equal (exact polynomial normal form / sequence equality) to an independent statement of the PLONK "
-                 "verification equation and Fiat-Shamir order.",
+                 "verification equation and Fiat-Shamir order."
+                 "Also: the proof codec (Proof / ProofEvaluations / Commitment from_bytes read every item with the type's canonical decoder, nothing before or after it).",
         "technique": "contract-based deductive verification: ring/trace contract checker (symbolic execution of the real fn, "
                      "callee contracts, exact polynomial normal form)",
         "level_note": "Trusted: the checker R itself, syn, the hand-written protocol statement. Assumed: RING model of the field, "
@@ -144,7 +147,8 @@ PROPS = {
                  "selector and separation challenge (all field values, all rows); quotient_poly::compute returns "
                  "Err(CircuitUnsatisfied) exactly when the interpolated quotient has more than 7n coefficients and Ok(it) otherwise; "
                  "append_custom_gate_internal records every appended row's four wires in the permutation map and pushes the "
-                 "constraint's selectors verbatim (effect trace).",
+                 "constraint's selectors verbatim (effect trace)."
+                 "Also: compute_permutation_vec (its only exit is the zero-denominator assert; instances n = 1, 2, 4 of the grand product), compute_sigma_permutations instances, prove_inner's exits and the exact inputs of quotient_poly::compute.",
         "technique": "contract-based deductive verification: ring/trace contract checker (exact polynomial normal form)",
         "level_note": "Decides only the per-row identities computed by the prover. Not decided: the equivalence between "
                       "`quotient degree <= 7n` and row-wise satisfaction (polynomial division over the FFT), sigma construction.",
@@ -183,7 +187,8 @@ PROPS = {
                  "component_boolean, component_select/_one/_zero push exactly the documented coefficient tuples and honest witness values; "
                  "semantic lemmas over those rows (R prime as the only axiom): boolean row <=> w in {0,1}; assert_equal row <=> equal; "
                  "assert_equal_constant row <=> w == k + PI; gate_add/gate_mul row <=> output == x; output wire uniquely determined whenever "
-                 "q_O != 0; component_select rows => out == bit*a + (1-bit)*b; select_one / select_zero rows <=> 1 - bit + bit*v / bit*v.",
+                 "q_O != 0; component_select rows => out == bit*a + (1-bit)*b; select_one / select_zero rows <=> 1 - bit + bit*v / bit*v."
+                 "Second opinion by R on the same functions (assert_equal, assert_equal_constant, append_public, append_constant, gate_add, gate_mul, append_gate, component_boolean, component_select*, and the three solving paths + q_O = 0 case of append_evaluated_output).",
         "technique": "contract-based deductive verification: Verus on the real functions annotated in place (overlay)",
         "level_note": "Assumed leaves: Composer::{append_witness_internal, append_custom_gate_internal, constraints, Index<Witness>} "
                       "(hashbrown map inside), BlsScalar field axioms (CANON), two Runtime::event cuts. "
@@ -205,7 +210,8 @@ PROPS = {
                  "SEMANTIC LEMMAS over exactly those rows: (soundness) rows satisfied by canonical values + closing equality ==> "
                  "witness < 2^nb for every even nb in 2..=254 (induction over the accumulator chain, 4^127 < r), and for every odd nb in "
                  "1..=253 via the lower/top split; (completeness) for every v < 2^nb the honest chain v div 4^(nq-i) satisfies every quad "
-                 "condition, is 0 on the padding positions and ends in v.",
+                 "condition, is 0 on the padding positions and ends in v."
+                 "Second opinion by R: range_check_even and range_check executed per width (all widths 0..256 in the thorough tier) must emit exactly the documented layout; the two public entry points emit exactly one internal check, on every call.",
         "technique": "contract-based deductive verification: Verus loop invariants on the real range_check_even/range_check (overlay) + "
                      "ring/trace checker for the range widget",
         "level_note": "Assumed: cut_le_bits (BitIterator8 bit extraction, 3 statements), BlsScalar::{to_bits,pow_of_2}, composer leaves. "
@@ -226,7 +232,8 @@ PROPS = {
                  "and for P > 0 the two truncation bindings bind_truncation_split(a, left_acc, 2P), (b, right_acc, 2P); returns the out "
                  "accumulator; append_logic_and/xor are the two instances; (b) logic widget: ProverKey::compute_quotient_i / "
                  "compute_linearization, VerifierKey::compute_linearization_commitment, delta and delta_xor_and equal the protocol's logic "
-                 "identity for all inputs.",
+                 "identity for all inputs."
+                 "Second opinion by R: per-width instances of the truncation gadget that binds the logic accumulators.",
         "technique": "contract-based deductive verification: ring/trace contract checker (exact polynomial normal form)",
         "level_note": "NOT yet covered: honest accumulator values, the quad-semantics lemma, the uniqueness lemma. Assumed: the two "
                       "bit-extraction cuts (BitIterator8 ... skip ... collect) return 2P booleans.",
@@ -245,7 +252,8 @@ PROPS = {
                  "r_high, r_low the split of r-1 at bit N (as bit sums of to_bits(-1)); returned witness = the low part; recompose_bits "
                  "== little-endian bit sum mod r (loop invariant); component_decomposition::<N> for the INSTANCES N in {1,2,8,252,256} "
                  "(composer-operation trace: N boolean bit witnesses, running sum with coefficient 2^i, closing equality, bits returned "
-                 "little-endian; `assert!(0 < N && N <= 256)` holds).",
+                 "little-endian; `assert!(0 < N && N <= 256)` holds)."
+                 "Second opinion by R: component_truncate, bind_truncation_split, assert_canonical_truncation per width (all widths in the thorough tier) and the range gadget instances.",
         "technique": "contract-based deductive verification: Verus on the real functions annotated in place (overlay)",
         "level_note": "component_decomposition is decided per instance N (listed), not for all N: the fold over a const-generic array is unrolled "
                       "by the trace checker. NOT covered: honest witness values of truncation, the canonical-split lemma.",
@@ -310,7 +318,8 @@ PROPS = {
                  "every slice); PackedCircuitReader::{take, unpack_array_len} and packed_size_limit likewise; "
                  "CommitKey::from_raw_var_bytes accepts a key only if EVERY decoded point individually passed is_on_curve & is_torsion_free "
                  "(generic loop iteration as one trace event) and rejects the first failing point with Err(PointMalformed); "
-                 "Verifier::new derives exactly one root per public-input index by pow (no index-sized allocation).",
+                 "Verifier::new derives exactly one root per public-input index by pow (no index-sized allocation)."
+                 "Also (R): Prover / Verifier / ProverKey / Evaluations / Commitment / Proof readers (every length checked before slicing, exact-length check before decoding, no allocation sized by input data before validation), from_bytes row replay and scalar table, unpack_bounded; Compiler::max_constraints free of overflow (second Verus pass).",
         "technique": "contract-based deductive verification: Verus on the real decoders annotated in place (overlay), callee wrappers for "
                      "dependency decoders; ring/trace checker for the per-point validity loop",
         "level_note": "Assumed (callee wrappers, listed in the evidence): VerifierKey/OpeningKey/ProverKey::from_slice, CommitKey::from_raw_var_bytes, "
@@ -331,7 +340,8 @@ PROPS = {
                  "e(-sum u^i W_i, [x]_2) e(sum u^i (C_i + z_i W_i) - (sum u^i e_i) g, [1]_2) == 1 with every entry contributing "
                  "(batch sizes 1-3); (c) util::powers_of(x, d) == [x^0, .., x^d] in the field (loop invariant; the powers of the SRS secret); (d) degree rule: CommitKey::truncate(d) (Err(TruncatedDegreeIsZero) for 0, Err(TruncatedDegreeTooLarge) beyond the key, "
                  "else the prefix of d+1 powers, with the documented d == 1 quirk), max_degree == len - 1, PublicParameters::trim(n) keeps "
-                 "n + 7 powers iff n + 6 <= max_degree, check_commit_degree_is_within_bounds: Err(PolynomialDegreeTooLarge) iff degree > max_degree.",
+                 "n + 7 powers iff n + 6 <= max_degree, check_commit_degree_is_within_bounds: Err(PolynomialDegreeTooLarge) iff degree > max_degree."
+                 "Also (R): AggregateProof::flatten with positional, pairwise distinct powers (1..7 parts).",
         "technique": "contract-based deductive verification: Verus (degree rule) + ring/trace contract checker (aggregate witness, batch check)",
         "level_note": "R units are per batch size / list length (stated), not for all lengths. NOT decided: linearity of commitments (msm), "
                       "consistency of generated parameters, ruffini = division by (X - z), pairing algebra.",
@@ -403,7 +413,8 @@ PROPS = {
                  "succeeds iff n + 6 <= max_degree, and LEMMA max_constraints_exact: for all c >= 1 and all capacities, "
                  "c <= max_constraints <=> npot(c + 6) + 6 <= max_degree; (b) bounded decompression: packed_size_limit == 857*mc + 30 or Err on "
                  "overflow; PackedCircuitReader::{take, unpack_array_len, is_empty} never read out of bounds, never grow the remaining input and "
-                 "reject every non-array tag.",
+                 "reject every non-array tag."
+                 "Also (R): the encoder's index assignment (from_composer: every selector value gets the table length at THAT moment unless present), scalar_map (an index once given is never reassigned), unpack_bounded (each collection under its own bound, scalars 11 per row), the row-replay loop of from_bytes (each row from its own tuple; the only carried state is the public-input cursor; every scalar through the canonical decoder), unpack_array_len per tag.",
         "technique": "contract-based deductive verification: Verus on the real functions annotated in place (overlay)",
         "level_note": "Not decided: byte identity of the keys of the two routes (from_composer / from_bytes reconstruction over hashbrown); "
                       "CompressedCircuit::from_bytes / unpack_bounded / validate_indices bodies are not yet under contract.",
